@@ -83,7 +83,45 @@ Scenario decode(const uint8_t *data, size_t size)
 	return sc;
 }
 
+// mode "model": only operations the reference model can judge. Fixed 5-byte records (ctl, a, b, c, d) after a 2-byte header.
+Scenario decode_model(const uint8_t *data, size_t size)
+{
+	Cur c{data, size};
+	Scenario sc;
+	int b0 = c.u8(), b1 = c.u8();
+	sc.end = (b0 >> 6) & 1;
+	sc.order_seed = b1 & 3;
+	for (int i = 0; i < 3; i++) { Op o; o.kind = CONNECT; o.a = ((b0 >> (2 * i)) & 3) % 3; sc.ops.push_back(o); }
+	static const int kinds[16] = {ADD, REMOVE, CHANGE, FETCH, UNFETCH, GET, SET, CALL, REPLY, INFO, CONNECT, END, ADVANCE, RAWREQ, MUTREQ, BATCH};
+	int records = 0;
+	while (c.more() && records++ < 80) {
+		int ctl = c.u8(); int a = c.u8(), b = c.u8(), cc = c.u8(), d = c.u8();
+		Op o; o.kind = kinds[ctl & 15]; o.conn = (ctl >> 4) & 3; o.join = (ctl >> 6) & 1; o.idm = (ctl >> 7) ? ((d & 64) ? ID_NONE : ID_STR) : ID_NUM;
+		switch (o.kind) {
+		case ADD: o.a = a % 8; o.b = (b & 128) ? -1 : b % 15; o.c = (cc & 1) | ((cc & 4) ? 2 : 0); o.d = (d & 32) ? d % 12 : 0; break;
+		case REMOVE: o.a = a % 8; o.c = (cc & 4) ? 2 : 0; break;
+		case CHANGE: o.a = a % 8; o.b = b % 15; o.c = (cc & 4) ? 2 : 0; break;
+		case FETCH: o.a = a % 5; o.b = b % 10; break;
+		case UNFETCH: o.a = a % 5; break;
+		case GET: o.b = b % 10; break;
+		case SET: o.a = a % 8; o.b = b % 15; o.c = (cc & 4) ? 2 : 0; o.d = (d & 32) ? d % 12 : 0; break;
+		case CALL: o.a = a % 8; o.b = (b & 128) ? -1 : b % 15; o.c = (cc & 4) ? 2 : 0; o.d = (d & 32) ? d % 12 : 0; break;
+		case REPLY: o.a = a % 6; o.b = b % 5; o.c = cc % 15; break;
+		case CONNECT: o.conn = 0; o.join = false; o.a = a % 3; o.b = b % 4; break;
+		case END: o.a = a % 3; break;
+		case ADVANCE: o.conn = 0; o.a = a % 13; break;
+		case RAWREQ: o.a = a % 26; o.b = b % 27; o.c = cc % 15; break;
+		case MUTREQ: o.a = a % 9; o.b = b % 8; o.c = cc % 12; o.d = d % 15; break;
+		case BATCH: o.a = a % 5; o.b = b % 7; break;
+		default: break;
+		}
+		sc.ops.push_back(o);
+	}
+	return sc;
+}
+
 std::string g_mode = "c06", g_out, g_stat_path;
+std::vector<std::string> g_rules; // mode "model": rule prefixes that count (DFUZZ_RULES)
 long g_execs = 0, g_nontrivial = 0;
 std::unordered_set<uint64_t> g_seen;
 std::map<std::string, long> g_labels, g_stat;
@@ -105,7 +143,7 @@ void flush_stats()
 void dump_and_trap(const Scenario &sc, const world::Verdict &vd)
 {
 	js::Value rep = js::Value::obj();
-	rep.set("property", js::Value::str(g_mode == "c07" ? "C07" : "C06"));
+	rep.set("property", js::Value::str(getenv("DFUZZ_PROP") ? getenv("DFUZZ_PROP") : g_mode == "c07" ? "C07" : "C06"));
 	rep.set("signature", js::Value::str(vd.v.empty() ? "?" : vd.v[0].rule));
 	rep.set("detail", js::Value::str(vd.v.empty() ? "" : vd.v[0].detail));
 	rep.set("scenario", scen::to_json(sc));
@@ -119,6 +157,7 @@ void dump_and_trap(const Scenario &sc, const world::Verdict &vd)
 world::RunOpts options()
 {
 	world::RunOpts o;
+	if (g_mode == "model") { o.baseline_check = false; o.hygiene_check = true; return o; } // model, replicas, WebSocket judge, probe: as in the C01/C03/C05 checks
 	o.model_check = false; o.replica_check = false; o.ws_check = false; o.reserve_conn0 = true;
 	bool c07 = g_mode == "c07";
 	o.baseline_check = c07; o.hygiene_check = c07; o.cap_check = c07;
@@ -127,6 +166,11 @@ world::RunOpts options()
 
 bool relevant(const std::string &rule)
 {
+	if (g_mode == "model") {
+		if (rule.compare(0, 13, "inconclusive/") == 0) return false;
+		for (auto &p : g_rules) if (rule.compare(0, p.size(), p) == 0) return true;
+		return false;
+	}
 	static const char *c06[] = {"C06/", "serve/", "output/"};
 	static const char *c07[] = {"C07/", "serve/"};
 	if (g_mode == "c07") { for (auto p : c07) if (rule.compare(0, strlen(p), p) == 0) return true; return false; }
@@ -153,6 +197,7 @@ extern "C" int LLVMFuzzerInitialize(int *argc, char ***argv)
 	if (const char *m = getenv("DFUZZ_MODE")) g_mode = m;
 	if (const char *m = getenv("DFUZZ_OUT")) g_out = m;
 	if (const char *m = getenv("DFUZZ_STAT")) g_stat_path = m;
+	{ std::string r = getenv("DFUZZ_RULES") ? getenv("DFUZZ_RULES") : "model/,C01/,C03/,output/,serve/"; size_t p = 0; while (p <= r.size()) { size_t e = r.find(',', p); if (e == std::string::npos) e = r.size(); if (e > p) g_rules.push_back(r.substr(p, e - p)); p = e + 1; } }
 	atexit(flush_stats);
 	return 0;
 }
@@ -160,20 +205,21 @@ extern "C" int LLVMFuzzerInitialize(int *argc, char ***argv)
 extern "C" int LLVMFuzzerTestOneInput(const uint8_t *data, size_t size)
 {
 
-	Scenario sc = decode(data, size);
+	Scenario sc = g_mode == "model" ? decode_model(data, size) : decode(data, size);
 	if (getenv("DFUZZ_DUMP")) { // `DFUZZ_DUMP=1 dfuzz <artifact>`: print the scenario of an input instead of running it
 		js::Value rep = js::Value::obj(); rep.set("property", js::Value::str(g_mode == "c07" ? "C07" : "C06")); rep.set("scenario", scen::to_json(sc));
 		printf("DFUZZ-SCENARIO %s\n", js::dump(rep).c_str()); fflush(stdout);
 		return 0;
 	}
 	uuid = 0;
-	world::Verdict vd = inproc::run(sc, options(), [](world::World &w) { w.custom_check = witness_check; },
+	world::Verdict vd = inproc::run(sc, options(), [](world::World &w) { if (g_mode != "model") w.custom_check = witness_check; },
 	                                [&](world::World &w) { dump_and_trap(sc, w.vd); });
 	g_execs++;
 	for (auto &x : vd.v) if (relevant(x.rule)) { world::Verdict one; one.v.push_back(x); dump_and_trap(sc, one); }
 	auto g = [&](const char *k) { auto it = vd.stat.find(k); return it == vd.stat.end() ? 0L : it->second; };
 	// non-trivial: at least two framed messages / WebSocket frames / byte blobs were delivered to non-witness connections
-	if (g("op_msg") + g("op_wsframe") + g("op_bytes") >= 2 && g_seen.insert(scen::fnv(std::string((const char *)data, size))).second) {
+	bool nt = g_mode == "model" ? (g("msgs_sent") >= 4 && (g("m_routed") >= 1 || g("m_notify") >= 1 || vd.labels.count("joined-step"))) : g("op_msg") + g("op_wsframe") + g("op_bytes") >= 2;
+	if (nt && g_seen.insert(scen::fnv(std::string((const char *)data, size))).second) {
 		g_nontrivial++;
 		if (g_sample.empty() || (g_nontrivial % 1024) == 0) g_sample = js::dump(scen::to_json(sc));
 	}
